@@ -22,7 +22,7 @@ void exDiffusion(const json &in, json &out) {
   std::vector<data_t> pts;
   for (const auto &p : in.at("pts")) pts.push_back(rat(p));
   std::vector<std::array<data_t, 1>> d1, d2;
-  const double k = rat(in.at("scale"));
+  const double k = std::ldexp(rat(in.at("scale")), -in.value("sexp", 0));
   for (const auto &d : in.at("D")) {
     d1.push_back({rat(d)});
     d2.push_back({k * rat(d)});
